@@ -277,7 +277,7 @@ func checkC08(c *Ctx) {
 		}
 	}
 	c.Floor("typeterm spec kinds", nSpecs, 15, "hcldec spec kinds")
-	c.Floor("typeterm fresh returns", nRets, 25, "fresh values returned on absent/empty/unknown/error paths")
+	c.Floor("typeterm fresh returns", nRets, 15, "fresh values returned on absent/empty/unknown/error paths")
 	c08UnknownBody(c)
 	c.NotCovered("values assembled from decoded children (ListVal(elems), ObjectVal(vals)): conformance there is inductive over values")
 	c.NotCovered("the 'exactly the described value' clause for error-free decoding; panics of cty constructors on inconsistent element types")
@@ -503,5 +503,5 @@ func c08Elements(c *Ctx) {
 			}
 		}
 	}
-	c.Floor("elements insertions", n, 4, "BlockAttrsSpec map elements, BlockListSpec/BlockSetSpec/BlockMapSpec elements")
+	c.Floor("elements insertions", n, 3, "BlockAttrsSpec map elements, BlockListSpec/BlockSetSpec/BlockMapSpec elements")
 }
